@@ -158,9 +158,12 @@ Definition unicode_names : ty :=
            (u8 [195; 150; 108], TSlice leaf); ("Z", TPtr (TNamed "Uni" (TStruct [(u8 [208; 163; 208; 187], t_string); ("A", t_int32)])))].
 
 (* field names that are prefixes of one another or differ only in the case of a letter: a segment must match a name exactly *)
+Definition cell : ty := TNamed "Cell" (TStruct [("R", t_int32); ("C", TScalar (SInt KUint8)); ("On", TScalar SBool); ("Tag", t_string)]).
 Definition similar_names : ty :=
   TStruct [("A", t_int32); ("Ab", t_string); ("AB", t_bytes); ("Abc", TPtr leaf); ("ABC", TMap t_string t_int32);
-           ("ABc", TSlice t_string); ("Name", t_string); ("NAME", t_int32); ("Names", TSlice leaf)].
+           ("ABc", TSlice t_string); ("Name", t_string); ("NAME", t_int32); ("Names", TSlice leaf);
+           (* collections of a struct made of integers, booleans and strings only (comparable with ==, no float, no pointer) *)
+           ("Cells", TSlice cell); ("CM", TMap t_string cell); ("PC", TSlice (TPtr cell)); ("One", cell)].
 
 (* a struct with one field per scalar kind: K0 .. K14 *)
 Definition kinds_struct (f : skind -> ty) (ks : list skind) : ty :=
